@@ -51,6 +51,8 @@ def gen_country(rng, key, role, n, allow_portfolio, grid=True):
         hh['share'] = rng.choice([0.25, 0.5, 0.6])
     elif rng.random() < 0.3:
         hh['F0'] = float(rng.randint(5, 60))
+    if rng.random() < 0.25:
+        hh['own_tax'] = round(rng.uniform(0.05, 0.4), 2)      # sector-specific tax rate overriding the TaxFlow's
     firm = {'form': rng.choice(['fixed', 'fixed', 'multi']), 'margin': 0.0}
     cap = None
     if firm['form'] == 'fixed' and rng.random() < 0.35:
@@ -66,10 +68,10 @@ def gen_country(rng, key, role, n, allow_portfolio, grid=True):
 
 
 def gen_zone(rng, cur, kind, keys, n, ext, grid=True):
-    form = rng.choice(['consolidated', 'consolidated', 'treasury_cb'] + (['gold'] if ext else []))
+    form = rng.choice(['consolidated', 'consolidated', 'treasury_cb'] + (['gold', 'gold_cb'] if ext else []))
     gov = {'form': form, 'money': False, 'deposits': False, 'tax': round(rng.uniform(0.1, 0.35), 2 if grid else 6),
            'r': None, 'gold_stock': float(rng.randint(20, 80))}
-    if form == 'treasury_cb':
+    if form in ('treasury_cb', 'gold_cb'):
         gov['money'] = gov['deposits'] = True
     elif form == 'consolidated':
         gov['money'] = rng.random() < 0.5
@@ -166,7 +168,7 @@ def gen_spec(rng, n_zones=None, allow_fed=True, ext=None, maxtime=None, grid=Tru
 
 
 def gov_code(form):
-    return 'TRE' if form == 'treasury_cb' else 'GOV'
+    return 'TRE' if form in ('treasury_cb', 'gold_cb') else 'GOV'
 
 
 class Built(object):
@@ -221,7 +223,7 @@ def _build(spec, model=None, holder=None, order_seed=None, codes=None, ckey_map=
     from sfc_models.sector_definitions import (Household, HouseholdWithExpectations, Capitalists,
                                                ConsolidatedGovernment, Treasury, CentralBank, FixedMarginBusiness,
                                                FixedMarginBusinessMultiOutput, TaxFlow, MoneyMarket, DepositMarket,
-                                               GoldStandardGovernment)
+                                               GoldStandardGovernment, GoldStandardCentralBank)
     from sfc_models.external import ExternalSector
     b = holder if holder is not None else Built()
     own_model = model is None
@@ -275,6 +277,13 @@ def _build(spec, model=None, holder=None, order_seed=None, codes=None, ckey_map=
                     steps.append(('GOV', [], lambda country=country, ck=ck, g=g: S.__setitem__(
                         (ck, 'GOV'), GoldStandardGovernment(country, code(ck, 'GOV'), 'Gold gov',
                                                             initial_gold_stock=g['gold_stock']))))
+                elif g['form'] == 'gold_cb':
+                    steps.append(('TRE', [], lambda country=country, ck=ck: S.__setitem__(
+                        (ck, 'TRE'), Treasury(country, code(ck, 'TRE'), 'Treasury'))))
+                    steps.append(('CB', ['TRE'], lambda country=country, ck=ck, g=g: S.__setitem__(
+                        (ck, 'CB'), GoldStandardCentralBank(country, code(ck, 'CB'), 'Gold central bank',
+                                                            treasury=S[(ck, 'TRE')],
+                                                            initial_gold_stock=g['gold_stock']))))
                 else:
                     steps.append(('TRE', [], lambda country=country, ck=ck: S.__setitem__(
                         (ck, 'TRE'), Treasury(country, code(ck, 'TRE'), 'Treasury'))))
@@ -286,7 +295,7 @@ def _build(spec, model=None, holder=None, order_seed=None, codes=None, ckey_map=
                     (ck, 'TF'), TaxFlow(country, code(ck, 'TF'), 'TaxFlow', taxrate=g['tax'],
                                         taxes_paid_to=code(ck, gc)))))
                 if g['money']:
-                    issuer = 'CB' if g['form'] == 'treasury_cb' else 'GOV'
+                    issuer = 'CB' if g['form'] in ('treasury_cb', 'gold_cb') else 'GOV'
                     steps.append(('MON', [], lambda country=country, ck=ck, issuer=issuer: S.__setitem__(
                         (ck, 'MON'), MoneyMarket(country, issuer_short_code=code(ck, issuer)))))
                 if g['deposits']:
@@ -371,6 +380,8 @@ def _build(spec, model=None, holder=None, order_seed=None, codes=None, ckey_map=
             hs = c['hh']
             if hs['F0'] is not None:
                 hh.AddInitialCondition('F', hs['F0'])
+            if hs.get('own_tax') is not None:
+                hh.AddVariable('TaxRate', 'Sector-specific tax rate', repr(hs['own_tax']))
             if hs['portfolio']:
                 dep = S[(gkey, 'DEP')]
                 if hs['portfolio'] == 'share':
